@@ -146,9 +146,9 @@ namespace {
 
       Engine *eng[N_SLOTS] = {nullptr, nullptr, nullptr, nullptr, nullptr};
       GenModel model[N_SLOTS];
-      int gen_counter = 0;
+      std::atomic<int> gen_counter{0}; // creations on different slots are not ordered with each other
       bool had_engine[N_SLOTS] = {false, false, false, false, false};
-      std::set<void *> old_heap_addr;
+      std::set<void *> old_heap_addr[N_SLOTS]; // per slot: operations on one slot are ordered, across slots they are not
       std::vector<std::atomic<int>> done(ops.size());
       for (auto &d : done) {
         d.store(0);
@@ -202,7 +202,7 @@ namespace {
             if (k == "create") {
               if (!eng[s]) {
                 m = GenModel();
-                m.gen = ++gen_counter;
+                m.gen = gen_counter.fetch_add(1) + 1;
                 m.bumps = std::make_shared<std::atomic<int>>(0);
                 if (s < N_ARENA) {
                   eng[s] = make_engine_at(g_arena[s].bytes, {dir});
@@ -219,11 +219,11 @@ namespace {
                 }
                 if (s >= N_ARENA) {
                   cnt[size_t(a)]["engines_created_on_heap"] += 1;
-                  if (old_heap_addr.count(static_cast<void *>(eng[s]))) {
+                  if (old_heap_addr[s].count(static_cast<void *>(eng[s]))) {
                     cnt[size_t(a)]["fault_engine_recreate_same_address"] += 1;
                     cnt[size_t(a)]["probe_heap_address_reused"] += 1;
                   }
-                  old_heap_addr.insert(static_cast<void *>(eng[s]));
+                  old_heap_addr[s].insert(static_cast<void *>(eng[s]));
                 }
                 had_engine[s] = true;
                 out = "created";
